@@ -59,6 +59,8 @@ impl<T: Kb> Kb for Option<T> { fn kb(&self) -> u8 { match self { Some(x) => x.kb
 impl Kb for P { fn kb(&self) -> u8 { self.0 } }
 impl<T: Kb> Kb for W<T> { fn kb(&self) -> u8 { self.0.kb() } }
 
+/// the identity key (`key = $`)
+pub fn k_id<T>(x: &T) -> &T { x }
 // distinct key functions per attribute, so that which attribute won is observable
 pub fn k_ord<T: Kb>(x: &T) -> u8 { x.kb() & 0x0f }
 pub fn k_partial_ord<T: Kb>(x: &T) -> u8 { x.kb() & 0x33 }
